@@ -117,7 +117,7 @@ def run(ctx: core.Ctx):
               "pair the reported dist must equal the signed separation of the two geoms ALONG the reported normal computed from float64 support "
               "functions of sphere / capsule / ellipsoid / cylinder / box / half-space, and n.pos must be midway between the two supporting planes")
   n = 320 if ctx.quick else 5000
-  r = ctx.tlc("Gen_CollisionFamily", "Gen_CollisionFamily.cfg", gen=c04.gen(n), workers=1, simulate="num=1", depth=n + 1, seed=(ctx.seed + 20) % (1 << 30), timeout=900)
+  r = ctx.tlc("Gen_CollisionFamily", "Gen_CollisionFamily.cfg", gen=c04.gen(n, types=("plane", "sphere", "capsule", "ellipsoid", "cylinder", "box", "mesh")), workers=1, simulate="num=1", depth=n + 1, seed=(ctx.seed + 20) % (1 << 30), timeout=900)
   cases = r.emit("case")
   CH = max(1, len(cases) // 42 + 1)
   chunks = [cases[i : i + CH] for i in range(0, len(cases), CH)]
